@@ -141,6 +141,18 @@ theorem keyring_source_add_key (keys : List KeyringSrc.Key) (n : Option Keyring.
 example : KeyringSrc.Keyring.add_key [] (some "a".toList) (some ⟨alicePk⟩) none = ([⟨"a".toList, ⟨alicePk⟩, none⟩], .ok ()) := by
   rw [keyring_source_add_key]; rfl
 
+/-- **API inventory.**  The functions of keyring.rs that the rest of the crate can call (`pub` / `pub(crate)`; the translator
+    lists them, sorted, as `KeyringSrc.pubFns`) are exactly: the three accessors (`as_str`, `as_bytes`: `@[simp]` one-liners
+    every proof sees through) and the functions the theorems of this file are about (`EncodedPk::try_from` /
+    `EncodedSk::try_from` are trait methods, `parse_config` / `add_key` and helpers are private).  A function ADDED to this
+    interface has no theorem yet; this one fails until the function is listed here (and, if it matters, covered). -/
+theorem keyring_source_api : KeyringSrc.pubFns =
+    ["EncodedPk.as_str", "EncodedSk.as_bytes", "EncodedSk.as_str", "Keyring.decode_public_key", "Keyring.encode_public_key",
+     "Keyring.get_key", "Keyring.get_name_from_key", "Keyring.lock_private_key", "Keyring.new", "Keyring.serialize_key",
+     "Keyring.unlock_private_key", "Keyring.valid_key_name"] := rfl
+
+example : "Keyring.new" ∈ KeyringSrc.pubFns := by rw [keyring_source_api]; decide
+
 /-! ## stretch -/
 
 /-- **serialize_key.** -/
@@ -176,17 +188,20 @@ theorem keyring_source_decode_public_key (s : Keyring.Str) :
         (match Keyring.decodePk s with | .ok k => .ok ⟨k⟩ | .error err => .error (errClass err))) ∧
     ((∃ m, KeyringSrc.EncodedPk.try_from s = .error m) →
       Keyring.decodePk s = .error .pkFormat ∨ Keyring.decodePk s = .error .pkLength) := by
-  rw [pk_try_from_eq]
+  have ht := pk_try_from_toOption s
   cases hd : B64.decode (Keyring.utf8 s) with
-  | none => exact ⟨fun e he => (by cases he), fun _ => Or.inl (by unfold Keyring.decodePk; rw [hd])⟩
+  | none =>
+    rw [hd] at ht
+    exact ⟨fun e he => (by rw [he] at ht; cases ht), fun _ => Or.inl (by unfold Keyring.decodePk; rw [hd])⟩
   | some b =>
+    rw [hd] at ht
     by_cases hl : b.length = 36
-    · have : (b.length != 36) = false := by simp [hl]
-      simp only [this, Bool.false_eq_true, if_false]
-      exact ⟨fun e he => (by cases he; exact decode_public_key_eq s b hd hl), fun ⟨_, hm⟩ => (by cases hm)⟩
-    · have : (b.length != 36) = true := by simp [hl]
-      simp only [this, if_true]
-      exact ⟨fun e he => (by cases he),
+    · simp only [hl, if_true] at ht
+      have hok := ok_of_toOption ht
+      exact ⟨fun e he => (by rw [hok] at he; cases he; exact decode_public_key_eq s b hd hl),
+        fun ⟨_, hm⟩ => (by rw [hok] at hm; cases hm)⟩
+    · simp only [hl, if_false] at ht
+      exact ⟨fun e he => (by rw [he] at ht; cases ht),
         fun _ => Or.inr (by unfold Keyring.decodePk; rw [hd]; simp [Generated.encodedPkLen, hl])⟩
 
 example : ∃ e, KeyringSrc.EncodedPk.try_from alicePk = .ok e ∧
@@ -201,17 +216,20 @@ theorem keyring_source_unlock_private_key (s : Keyring.Str) (pw : Bytes) :
       KeyringSrc.Keyring.unlock_private_key e pw =
         (match Keyring.unlockPrivateKey s pw with | .ok k => .ok ⟨k⟩ | .error err => .error (errClass err))) ∧
     ((∃ m, KeyringSrc.EncodedSk.try_from s = .error m) → Keyring.unlockPrivateKey s pw = .error .skLength) := by
-  rw [sk_try_from_eq]
+  have ht := sk_try_from_toOption s
   cases hd : B64.decode (Keyring.utf8 s) with
-  | none => exact ⟨fun e he => (by cases he), fun _ => (by unfold Keyring.unlockPrivateKey; rw [hd])⟩
+  | none =>
+    rw [hd] at ht
+    exact ⟨fun e he => (by rw [he] at ht; cases ht), fun _ => (by unfold Keyring.unlockPrivateKey; rw [hd])⟩
   | some b =>
+    rw [hd] at ht
     by_cases hl : b.length = 84
-    · have : (b.length != PRIVATE_KEY_CT_LEN) = false := by simp [hl, PRIVATE_KEY_CT_LEN]
-      simp only [this, Bool.false_eq_true, if_false]
-      exact ⟨fun e he => (by cases he; exact unlock_private_key_eq s pw b hd hl), fun ⟨_, hm⟩ => (by cases hm)⟩
-    · have : (b.length != PRIVATE_KEY_CT_LEN) = true := by simp [hl, PRIVATE_KEY_CT_LEN]
-      simp only [this, if_true]
-      exact ⟨fun e he => (by cases he),
+    · simp only [hl, if_true] at ht
+      have hok := ok_of_toOption ht
+      exact ⟨fun e he => (by rw [hok] at he; cases he; exact unlock_private_key_eq s pw b hd hl),
+        fun ⟨_, hm⟩ => (by rw [hok] at hm; cases hm)⟩
+    · simp only [hl, if_false] at ht
+      exact ⟨fun e he => (by rw [he] at ht; cases ht),
         fun _ => (by unfold Keyring.unlockPrivateKey; rw [hd]; simp [Generated.privateKeyCtLen, hl])⟩
 
 example (pw : Bytes) : ∃ e, KeyringSrc.EncodedSk.try_from aliceSk = .ok e ∧
